@@ -1,4 +1,5 @@
-import NixModel.Lemmas.C14Sound
+import NixModel.Lemmas.C14Exact
+import NixModel.Lemmas.C14Units
 import Mathlib.Data.List.Nodup
 
 /-!
@@ -9,7 +10,10 @@ Property theorems only (helper lemmas: `NixModel/Lemmas/C14*.lean`).  All statem
 (`Generated/ValidatorCatalogue.lean`).
 
 * `C14_sound` — a well-formed file (the conjunction of the property statement) validates to *no* errors and no
-  API read raises;
+  API read raises; `C14_sound_iff` — and conversely: `WellFormed` is *exactly* the set of files that validate to no
+  errors, it assumes nothing the validator's silence does not force;
+* `C14_unit_pair_atoms`, `C14_unconvertible_atoms` — on unit strings written from the regenerated SI tables the
+  "convertible" test is: same unit symbol and same power (look-alike symbols `m`/`mol`, `W`/`Wb`, `S`/`Sv` differ);
 * `C14_objects` / `C14_reports` — the traversal produces an entry for exactly the objects of the file, and
   `results["errors"]` holds exactly the non-empty ones ("for exactly the objects that have it and for no others");
 * `C14_complete_*` — per catalogue entry: the message is in the list computed for an object **iff** the object
@@ -21,6 +25,7 @@ Property theorems only (helper lemmas: `NixModel/Lemmas/C14*.lean`).  All statem
 -/
 namespace Nix.C14
 open Nix.Validator Nix.Validator.Gen Nix.Validator.Lemmas Nix.Units
+open Nix.Units.Lemmas (optPrefixes powerTexts)
 
 /-! ## well-formed files -/
 
@@ -85,6 +90,59 @@ theorem C14_sound (f : File) (h : WellFormed f) : validate f = .ok [] := by
       | «section» => obtain ⟨n, hn, rfl⟩ := hc; exact checkSection_nil (hs n hn).1 (hs n hn).2
     simp [this]
   simp [validate, hraise, hrep]
+
+/-- the converse: a file that validates to no errors is well-formed — every conjunct of `WellFormed` is forced by the
+validator's silence (and by `validate` returning at all) -/
+theorem C14_silent_wellformed (f : File) (h : validate f = .ok []) : WellFormed f := by
+  have hr : raiseEvents f = [] := by
+    unfold validate at h
+    cases hh : (raiseEvents f).head? with
+    | none => simpa using hh
+    | some e => simp [hh] at h
+  have hrep : reports f = [] := by simpa [validate, hr] using h
+  have hall : ∀ kind msgs, IsCheckOf f kind msgs → msgs = [] := by
+    intro kind msgs hc
+    obtain ⟨p, hp⟩ := (allChecks_iff f kind msgs).mpr hc
+    by_contra hne
+    have : ((⟨kind, p⟩ : Key), msgs) ∈ reports f := by
+      simp only [reports, List.mem_filter]
+      exact ⟨hp, by simpa using hne⟩
+    rw [hrep] at this
+    simp at this
+  unfold raiseEvents at hr
+  obtain ⟨hbe, hse⟩ := List.append_eq_nil_iff.mp hr
+  refine ⟨?_, ?_, ?_⟩
+  · have hf := hall .file (checkFileObj f) rfl
+    intro h0
+    simp [checkFileObj, h0] at hf
+  · intro b hb
+    have hbev := List.flatMap_eq_nil_iff.mp hbe b hb
+    unfold blockEvents at hbev
+    simp only [List.append_eq_nil_iff, ctorEvents_nil_iff] at hbev
+    obtain ⟨⟨⟨⟨⟨hu, hg⟩, ha⟩, ht⟩, hmt⟩, hsrc⟩ := hbev
+    refine ⟨entOk_of_nil hu (hall .block _ ⟨b, hb, rfl⟩), ?_, ?_, ?_, ?_, ?_⟩
+    · intro g hgm
+      exact entOk_of_nil ((ctorEvents_nil_iff _).mp (List.flatMap_eq_nil_iff.mp hg g hgm))
+        (hall .group _ ⟨b, hb, g, hgm, rfl⟩)
+    · intro da hd
+      exact arrayOk_of_nil ((ctorEvents_nil_iff _).mp (List.flatMap_eq_nil_iff.mp ha da hd))
+        (hall .array _ ⟨b, hb, da, hd, rfl⟩)
+    · intro t htm
+      exact tagOk_of_nil (hall .tag _ ⟨b, hb, t, htm, rfl⟩) (List.flatMap_eq_nil_iff.mp ht t htm)
+    · intro t htm
+      exact multiTagOk_of_nil (hall .mtag _ ⟨b, hb, t, htm, rfl⟩) (List.flatMap_eq_nil_iff.mp hmt t htm)
+    · intro e he
+      rw [sourcesEvents_eq] at hsrc
+      exact entOk_of_nil ((ctorEvents_nil_iff _).mp (List.flatMap_eq_nil_iff.mp hsrc e he))
+        (hall .source _ ⟨b, hb, e, he, rfl⟩)
+  · intro n hn
+    rw [sectionsEvents_eq] at hse
+    obtain ⟨h1, h2⟩ := List.append_eq_nil_iff.mp (List.flatMap_eq_nil_iff.mp hse n hn)
+    exact sectionOk_of_nil ((ctorEvents_nil_iff _).mp h1) h2 (hall .section _ ⟨n, hn, rfl⟩)
+
+/-- **`WellFormed` is exactly "validates to no errors"** -/
+theorem C14_sound_iff (f : File) : validate f = .ok [] ↔ WellFormed f :=
+  ⟨C14_silent_wellformed f, C14_sound f⟩
 
 /-! ## which objects get an entry -/
 
@@ -324,20 +382,37 @@ theorem C14_complete_feature (arrays : List DataArray) (t : Tag) (i : Nat) (k : 
 
 /-! ## multi-tags -/
 
-/-- missing positions: the linked positions array has no entries -/
+/-- missing positions: the positions link is absent (repaired: `MultiTag.positions` raising RuntimeError used to
+propagate out of `validate()`), or the linked positions array has no entries -/
 theorem C14_complete_NoPositions (arrays : List DataArray) (t : MultiTag) :
-    .plain .NoPositions ∈ checkMultiTag arrays t ↔ (MtPosShape arrays t).bind firstLen = some 0 := by
+    .plain .NoPositions ∈ checkMultiTag arrays t ↔
+      (MtPosShape arrays t = none ∨ (MtPosShape arrays t).bind firstLen = some 0) := by
   rw [mem_checkMultiTag]; simp [mem_checkEntity, mem_refUnitMsgs, mem_checkFeature]
 
-/-- positions and (non-empty) extents differ in shape — references or not (repaired) -/
+/-- a missing positions link does not make `validate()` raise any more: the multi-tag contributes no exception unless
+its id, extents or features do -/
+theorem C14_missing_positions_reported (arrays : List DataArray) (t : MultiTag) (h : MtPosShape arrays t = none) :
+    .plain .NoPositions ∈ checkMultiTag arrays t ∧
+    mtagEvents arrays { t with extents := none, features := [] } = ctorEvents t.ent.idUuid := by
+  refine ⟨(C14_complete_NoPositions arrays t).mpr (Or.inl h), ?_⟩
+  have hp : (t.positions.bind fun k => arrays[k]?) = none := by
+    unfold MtPosShape at h
+    cases hx : (t.positions.bind fun k => arrays[k]?) with
+    | none => rfl
+    | some v => simp [hx] at h
+  simp [mtagEvents, hp]
+
+/-- linked positions and (non-empty) extents differ in shape — references or not (repaired) -/
 theorem C14_complete_PositionsExtentsMismatch (arrays : List DataArray) (t : MultiTag) :
     .plain .PositionsExtentsMismatch ∈ checkMultiTag arrays t ↔
+      MtPosShape arrays t ≠ none ∧
       ∃ es, MtExtShape arrays t = some es ∧ firstLen es ≠ some 0 ∧ MtPosShape arrays t ≠ some es := by
   rw [mem_checkMultiTag]; simp [mem_checkEntity, mem_refUnitMsgs, mem_checkFeature]
 
-/-- entries per position ≠ rank of some referenced array -/
+/-- entries per (linked) position ≠ rank of some referenced array -/
 theorem C14_complete_PositionsDimensionMismatch (arrays : List DataArray) (t : MultiTag) :
     .plain .PositionsDimensionMismatch ∈ checkMultiTag arrays t ↔
+      MtPosShape arrays t ≠ none ∧
       ∃ da ∈ refArrays arrays t.refs, (MtPosShape arrays t).bind secondDim ≠ some da.shape.length := by
   rw [mem_checkMultiTag]
   have : (∃ da ∈ refArrays arrays t.refs, (MtPosShape arrays t).bind secondDim ≠ some da.shape.length) →
@@ -345,7 +420,7 @@ theorem C14_complete_PositionsDimensionMismatch (arrays : List DataArray) (t : M
     rintro ⟨da, hda, -⟩ h; simp [refArrays, h] at hda
   simp only [mem_checkEntity, mem_refUnitMsgs, mem_checkFeature, reduceCtorEq, false_and, false_or, or_false,
     Msg.plain.injEq, true_and, and_false, exists_const, exists_false]
-  exact ⟨fun h => h.2, fun h => ⟨this h, h⟩⟩
+  exact ⟨fun h => h.2, fun h => ⟨this h.2, h⟩⟩
 
 /-- entries per extent ≠ rank of some referenced array -/
 theorem C14_complete_ExtentsDimensionMismatch (arrays : List DataArray) (t : MultiTag) :
@@ -381,6 +456,33 @@ theorem C14_complete_mtag_units (arrays : List DataArray) (t : MultiTag) :
       Msg.plain.injEq, true_and, and_false, exists_const, exists_false]
     exact ⟨fun h => h.2, fun h => ⟨h2 h, h⟩⟩
   · rw [mem_checkMultiTag]; simp [mem_checkEntity, mem_refUnitMsgs, mem_checkFeature]
+
+/-! ## "convertible" on real unit strings -/
+
+/-- for two units written from the regenerated SI tables (optional prefix, unit symbol, optional power `^-3 … ^3`) the
+validator's pair test holds iff the unit symbols and the powers agree — only the magnitude prefix may differ -/
+theorem C14_unit_pair_atoms (p₁ p₂ u₁ u₂ w₁ w₂ : Str) (h₁ : p₁ ∈ optPrefixes) (h₂ : p₂ ∈ optPrefixes)
+    (hu₁ : u₁ ∈ Nix.Units.Gen.units) (hu₂ : u₂ ∈ Nix.Units.Gen.units) (hw₁ : w₁ ∈ powerTexts) (hw₂ : w₂ ∈ powerTexts) :
+    unitPairOk (p₁ ++ u₁ ++ w₁, p₂ ++ u₂ ++ w₂) = true ↔ (u₁ = u₂ ∧ w₁.drop 1 = w₂.drop 1) :=
+  unitPairOk_atoms p₁ p₂ u₁ u₂ w₁ w₂ h₁ h₂ hu₁ hu₂ hw₁ hw₂
+
+/-- "unconvertible units" is reported for a tag *and* for a multi-tag as soon as ONE reference (first, inner or last)
+has, at ONE position, a table unit of another symbol or power than the tag's unit at that position -/
+theorem C14_unconvertible_atoms (arrays : List DataArray) (t : Tag) (mt : MultiTag) (da : DataArray) (i : Nat)
+    (p₁ p₂ u₁ u₂ w₁ w₂ : Str) (h₁ : p₁ ∈ optPrefixes) (h₂ : p₂ ∈ optPrefixes)
+    (hu₁ : u₁ ∈ Nix.Units.Gen.units) (hu₂ : u₂ ∈ Nix.Units.Gen.units) (hw₁ : w₁ ∈ powerTexts) (hw₂ : w₂ ∈ powerTexts)
+    (hd : (getDimUnits da)[i]? = some (p₂ ++ u₂ ++ w₂)) (hne : u₁ ≠ u₂ ∨ w₁.drop 1 ≠ w₂.drop 1) :
+    (da ∈ refArrays arrays t.refs → t.units[i]? = some (p₁ ++ u₁ ++ w₁) →
+      .plain .ReferenceUnitsIncompatible ∈ checkTag arrays t) ∧
+    (da ∈ refArrays arrays mt.refs → mt.units[i]? = some (p₁ ++ u₁ ++ w₁) →
+      .plain .ReferenceUnitsIncompatible ∈ checkMultiTag arrays mt) := by
+  constructor
+  · intro hda ht
+    exact (C14_complete_ReferenceUnitsIncompatible arrays t).mpr
+      (unitsUnconvertible_of_atoms t.units _ da hda i p₁ p₂ u₁ u₂ w₁ w₂ h₁ h₂ hu₁ hu₂ hw₁ hw₂ ht hd hne)
+  · intro hda ht
+    exact (C14_complete_mtag_units arrays mt).2.1.mpr
+      (unitsUnconvertible_of_atoms mt.units _ da hda i p₁ p₂ u₁ u₂ w₁ w₂ h₁ h₂ hu₁ hu₂ hw₁ hw₂ ht hd hne)
 
 /-! ## sections and properties -/
 
@@ -568,7 +670,7 @@ example : WellFormed sampleFile := by
         simp at hi; obtain ⟨rfl, rfl⟩ := hi
         refine ⟨rfl, ?_, by simp, by simp⟩
         intro _
-        refine ⟨rfl, by simp, by simp; decide, ?_⟩
+        refine ⟨rfl, by simp, by simp <;> decide, ?_⟩
         intro s hs _; cases hs; decide +kernel
       | 1 =>
         simp at hi; obtain ⟨rfl, rfl⟩ := hi
@@ -602,5 +704,32 @@ example :
     validate { sampleFile with blocks := sampleFile.blocks.map fun b =>
       { b with arrays := b.arrays.map fun a => { a with dims := a.dims.map fun d => { d with ticks := [2, 1] } } } }
       = .ok [(⟨.array, [0, 0]⟩, [.dim .UnsortedTicks 1])] := by decide +kernel
+
+/-- look-alike symbols: a tag in `mol` on a dimension in `mm`, `Wb` on `kW`, `mSv` on `uS` — none is convertible -/
+example : unitPairOk ("mol".toList, "mm".toList) = false ∧ unitPairOk ("Wb".toList, "kW".toList) = false ∧
+    unitPairOk ("mSv".toList, "uS".toList) = false ∧ unitPairOk ("mmol".toList, "mol".toList) = true := by
+  decide +kernel
+
+/-- the hypotheses of `C14_unit_pair_atoms` are met by `mol` / `mm` -/
+example : ([] : Str) ∈ optPrefixes ∧ "m".toList ∈ optPrefixes ∧ "mol".toList ∈ Nix.Units.Gen.units ∧
+    "m".toList ∈ Nix.Units.Gen.units ∧ ([] : Str) ∈ powerTexts := by decide
+
+/-- three references, only the FIRST has a descriptor in another quantity (mV against the tag's s): reported -/
+example :
+    let arr (u : String) : DataArray :=
+      { ent := { type_ := some ['t'], id := some ['a'], idUuid := true, name := some ['a'], createdAt := some 1 },
+        dataType := some ['d'], shape := [2],
+        dims := [{ kind := .sample, index := 1, ticks := [], nLabels := 0, interval := some (1/2),
+                   unit := some u.toList }] }
+    checkTag [arr "mV", arr "ms", arr "s"]
+      { ent := { type_ := some ['t'], id := some ['t'], idUuid := true, name := some ['t'], createdAt := some 1 },
+        posLen := 1, extLen := 0, units := ["s".toList], refs := [0, 1, 2], features := [] }
+      = [.plain .ReferenceUnitsIncompatible] := by decide +kernel
+
+/-- a multi-tag without positions link is *reported* (`positions are not set`), validate() returns -/
+example :
+    validate { sampleFile with blocks := sampleFile.blocks.map fun b =>
+      { b with mtags := [{ ent := b.ent, positions := none, extents := none, units := [], refs := [], features := [] }] } }
+      = .ok [(⟨.mtag, [0, 0]⟩, [.plain .NoPositions])] := by decide +kernel
 
 end Nix.C14
